@@ -1,6 +1,8 @@
 """C13 - aliases mean identity, anchors obey the document rules (ordering / guard clauses on py + pyx)."""
 import sys
 
+from sa import crosslist as XL
+from sa import rules_r6b as R6B
 from sa import rules_r6 as R6
 from sa import report, rules_order as RO, rules_state as RS
 from sa import rules_repr as RREPR
@@ -32,6 +34,9 @@ def run(ctx, repo):
     ctx.call(R6.r_merge_cycle_cut, repo)
     ctx.call(R6.r_generator_drained, repo)
     ctx.call(R6.r_no_mutate_while_iterating, repo, ['composer', 'constructor'])
+    ctx.call(R6B.r_generators_fifo, repo)
+    XL.compose_identity(ctx, repo)
+    XL.construct_protocol(ctx, repo)
 
 
 if __name__ == '__main__':
